@@ -120,7 +120,7 @@ class C12(F.PropCheck):
     OUT = {0: 'CFGMODE', 1: 'CALRES', 2: 'CAL', 3: 'INERT', 4: 'FACTORYHOOK', 5: 'RESTART', 6: 'CFGFLASH', 7: 'OPMODE', 8: 'ACCEPT'}
     quick_cases = 2400; thorough_cases = 60000
     trusted_extra = ['C12 driver harness/drv/c12.c: real user_main.c/user_init + all device sources; linker --wrap of system_restart (ends the case) and '
-                     'supla_esp_gpio_state_cfgmode (prints CFGMODE); NOTIFY/TICK/TIME/APT call the real handlers / timer callbacks directly',
+                     'supla_esp_gpio_state_cfgmode (prints CFGMODE) and ets_delay_us (abstract-schedule cases: relay busy-waits take no virtual time); NOTIFY/TICK/TIME/APT call the real handlers / timer callbacks directly',
                      'call-site scan: clang -S -emit-llvm -O0 of the device sources, symbol references per function body']
     assumptions = ['board CALCFG hook inert, supla_esp_restart_on_cfg_press = 0, FirmwareUpdate = 0 (no update in progress), non-MQTT build',
                    'timer scheduling abstracted: theorems quantify over every interleaving of Tick/Time/ApTimer events (C11/C05 cover the scheduler)',
@@ -136,7 +136,7 @@ class C12(F.PropCheck):
         return F.build_c('c12', os.path.join(V, 'harness', 'drv', 'c12.c'), config='dev',
                          extra_srcs=[os.path.join(F.REPO, 'src', 'user', 'user_main.c'), os.path.join(V, 'harness', 'doubles', 'c12_extra.c')],
                          extra_flags=['-DSPI_FLASH_SIZE_MAP=2', '-DVERIF_REAL_USER_MAIN'],
-                         libs=['-Wl,--wrap=system_restart', '-Wl,--wrap=supla_esp_gpio_state_cfgmode'])
+                         libs=['-Wl,--wrap=system_restart', '-Wl,--wrap=supla_esp_gpio_state_cfgmode', '-Wl,--wrap=ets_delay_us'])
 
     # ---------------- generators
     def gen_srv(self, rng, b, rr):
@@ -196,8 +196,13 @@ class C12(F.PropCheck):
         def toggle(i):
             st[i] ^= 1; evs.append(('NOTIFY', [i, st[i]], b''))
         n_act = rng.choice([1, 2, 3, 4, 6])
-        for _ in range(n_act):
+        def settle():
+            # fair schedule: armed input timers do fire between two gestures (multi-click windows expire)
+            evs.append(('TIME', [320000], b''))
+            for j in range(len(b.inputs)): evs.append(('TICK', [j], b''))
+        for na_ in range(n_act):
             a = rng.random(); i = rng.randrange(len(b.inputs))
+            if na_ > 0: settle()
             if a < 0.3:      # hold
                 tags.append('hold')
                 if st[i]: toggle(i); evs.append(('TIME', [rng.choice([30000, 500000, 2500000])], b''))
@@ -343,7 +348,7 @@ class C12(F.PropCheck):
         # real schedule: state changes are polled after 1 ms steps and handlers burn time (relay switching 10 ms) before the poll
         tol = 30000 if real else 0
         nin = len(b.inputs)
-        lvl = [0] * nin; since = [None] * nin; changes = [[] for _ in range(nin)]
+        lvl = [0] * nin; since = [None] * nin; changes = [[] for _ in range(nin)]; dirs = [[] for _ in range(nin)]
         cal = {}         # tracked (t1, t2, step) per shutter for finding classification only
         for i in range(len(b.rs)): cal[i] = [b.time1[i] if i < len(b.time1) else 0, b.time2[i] if i < len(b.time2) else 0, 0]
         maxblank = None
@@ -364,7 +369,11 @@ class C12(F.PropCheck):
                 if not toggle_capable(inp): continue
                 c = changes[i]
                 if len(c) < NT or tt - c[-1] > tol + 30000: continue
-                gaps = [c[j + 1] - c[j] for j in range(len(c) - NT, len(c) - 1)]
+                # gaps between consecutive state changes; for a push button the time it stays pressed is not a pause between clicks
+                # (the advanced handler does not time out while the button is down), so only release->press gaps count there
+                idx = range(len(c) - NT, len(c) - 1)
+                if inp['type'] == k['TYPE_MONOSTABLE']: idx = [j for j in idx if dirs[i][j] == 0]
+                gaps = [c[j + 1] - c[j] for j in idx]
                 if all(g < 2000000 + tol for g in gaps): return True, False
                 if all((g % M32) < 2000000 + tol for g in gaps): wrapped = True
             return False, wrapped
@@ -376,7 +385,7 @@ class C12(F.PropCheck):
             elif kd == 'ADV': t += ints[0]
             elif kd == 'NOTIFY':
                 i, s_ = ints[0], ints[1]
-                if 0 <= i < nin and s_ in (0, 1) and lvl[i] != s_: lvl[i] = s_; since[i] = t; changes[i].append(t)
+                if 0 <= i < nin and s_ in (0, 1) and lvl[i] != s_: lvl[i] = s_; since[i] = t; changes[i].append(t); dirs[i].append(s_)
             elif kd == 'CONNCB': srpc = True
             elif kd == 'RSPOKE' and ints[0] in cal: cal[ints[0]] = [ints[1], ints[2], ints[7]]
             f = None; call = None
@@ -394,7 +403,7 @@ class C12(F.PropCheck):
             for o in seg2:
                 if o[0] == 'NSTATE':
                     i, s_, tt = o[1]
-                    if 0 <= i < nin and lvl[i] != s_: lvl[i] = s_; since[i] = tt; changes[i].append(tt)
+                    if 0 <= i < nin and lvl[i] != s_: lvl[i] = s_; since[i] = tt; changes[i].append(tt); dirs[i].append(s_)
                 elif o[0] == 'CFGMODE':
                     tt = o[1][0]; why = None
                     if kd == 'BOOT':
